@@ -211,8 +211,10 @@ def obs_events(chk):
     sizes = [7, 16, 33, 64, 100, 129, 200]
     grid = [(N, c, None) for N in sizes for c in (False, True)]
     # records longer than any plausible switch to an FFT-based path (128, 256, 512, 1024), with a number of lags in the
-    # middle of the range (where an under-padded circular correlation wraps around)
-    big = [(257, False, 128), (520, True, 260), (600, False, 450), (1030, False, 515)] + ([(1030, True, 300), (2050, False, 1025)] if chk.tier != 'quick' else [])
+    # middle of the range (where an under-padded circular correlation wraps around); past 4096 / 8192 / 16384 samples
+    # with a few lags only (the double loop of CORRELATION is slow)
+    big = [(257, False, 128), (520, True, 260), (600, False, 450), (1030, False, 515),
+           (4100, True, 6), (4500, False, 5)] + ([(1030, True, 300), (2050, False, 1025), (8200, True, 4), (16400, False, 3)] if chk.tier != 'quick' else [])
     grid += big
     for rep in range(reps + len(grid)):
         Lfix = None
@@ -292,6 +294,10 @@ def run(chk):
     obs_events(chk)
     from .. import session
     session.run_for(chk, 'C09')      # Session.tla: results do not depend on earlier calls
+    from .. import units
+    units.run_for(chk, 'C09')      # Units.tla: the unit the data are expressed in is not part of the data
+    from .. import carrier
+    carrier.run_for(chk, 'C09')      # Carrier.tla: a sample denotes its value whatever container carries it
 
 
 def replay_case(chk, sig, case):
